@@ -290,6 +290,12 @@ func (w *world) step(o op) (out obs) {
 			panic("bad balance")
 		}
 		w.lg.SetBalance(a, z)
+	case "addbal":
+		z, ok := new(big.Int).SetString(o.Z, 10)
+		if !ok {
+			panic("bad amount")
+		}
+		w.lg.AddBalance(a, z)
 	case "setnonce":
 		w.lg.SetNonce(a, o.N)
 	case "setcode":
